@@ -178,3 +178,28 @@ class CsrfProtection:
         if token != b64_sig:
             logging.debug("signatures do not match: %s %s", token, b64_sig)
             raise CsrfFailureException("signatures do not match")
+
+
+if True:
+    from dashlive.utils import verif_trace as _verif_trace
+
+    if _verif_trace.enabled():
+        _verif_orig_check = CsrfProtection.check.__func__
+
+        def _verif_traced_check(cls, service: str, csrf_token: str) -> None:
+            # records the outcome of every CSRF check (verification tooling only)
+            digest = hashlib.sha1(bytes(str(csrf_token), 'utf-8')).hexdigest()
+            cookie = flask.request.cookies.get(cls.CSRF_COOKIE_NAME, '')
+            cdigest = hashlib.sha1(bytes(cookie, 'utf-8')).hexdigest()
+            try:
+                _verif_orig_check(cls, service, csrf_token)
+            except Exception as err:
+                _verif_trace.emit(
+                    'csrf_check', service=service, token=digest, cookie=cdigest,
+                    accepted=False, reason=str(err))
+                raise
+            _verif_trace.emit(
+                'csrf_check', service=service, token=digest, cookie=cdigest,
+                accepted=True, reason='')
+
+        CsrfProtection.check = classmethod(_verif_traced_check)
